@@ -28,3 +28,5 @@ def run(check):
     check.run_rule('C13.R6b', lambda c: rule_recursion_guard_emptied(c, 'C13.R6'))
     from ..rules_windows import rule_thread_local_access
     check.run_rule('C13.R6c', lambda c: rule_thread_local_access(c, 'C13.R6'))
+    from ..rules_wrappers import rule_forged_visible_to_inspect
+    check.run_rule('C13.R7', lambda c: rule_forged_visible_to_inspect(c, 'C13.R7'))
